@@ -449,8 +449,14 @@ def r06_4(rep: Report) -> None:
     # roles by data flow, not by name: S is what receives the tfdt decode time, E what S is copied from
     # when there is no tfdt
     S = E = None
+    # the start is what the representation's own start time is taken from; failing that, what receives
+    # the tfdt decode time
     for n in ast.walk(branch):
         if isinstance(n, ast.Assign) and len(n.targets) == 1 and isinstance(n.targets[0], ast.Name) \
+                and isinstance(n.value, ast.Name) and 'representation_start' in n.targets[0].id:
+            S = n.value.id
+    for n in ast.walk(branch):
+        if S is None and isinstance(n, ast.Assign) and len(n.targets) == 1 and isinstance(n.targets[0], ast.Name) \
                 and norm(n.value).endswith('base_media_decode_time'):
             S = n.targets[0].id
     if S is None:
